@@ -111,6 +111,7 @@ class Engine(object):
         self.cvc5_timeout_s = 20
         self.max_unroll = 70
         self.default_elem = None   # element kind used when a concrete list meets a symbolic sequence
+        self.branch_full_timeout_ms = 400
         self.cvc5_for_branches = True
         self.cvc5_branch_timeout_s = 10
         self.stats = {"paths": 0, "branch_checks": 0, "solver_time": 0.0}
@@ -135,6 +136,14 @@ class Engine(object):
         f = getattr(mod, "__file__", None) or ""
         return f.startswith(self.repo_root + "/") or (
             self.contracts_dir is not None and f.startswith(self.contracts_dir))
+
+
+def _mentions_strings(extra, pc):
+    """cvc5 is only worth its start-up cost for conditions over strings (z3's weak spot)"""
+    try:
+        return "String" in extra.sexpr() or "str." in extra.sexpr()
+    except Exception:  # noqa
+        return False
 
 
 def explore(engine, thunk, max_paths=None):
@@ -178,6 +187,80 @@ from .interp import InterpMixin      # noqa: E402
 from .models import ModelsMixin      # noqa: E402
 
 
+_ARITH_KINDS = None
+
+
+def _arith_kinds():
+    global _ARITH_KINDS
+    if _ARITH_KINDS is None:
+        _ARITH_KINDS = {z3.Z3_OP_ADD, z3.Z3_OP_SUB, z3.Z3_OP_MUL, z3.Z3_OP_UMINUS, z3.Z3_OP_IDIV, z3.Z3_OP_MOD,
+                        z3.Z3_OP_REM, z3.Z3_OP_LE, z3.Z3_OP_LT, z3.Z3_OP_GE, z3.Z3_OP_GT, z3.Z3_OP_ANUM,
+                        z3.Z3_OP_AND, z3.Z3_OP_OR, z3.Z3_OP_NOT, z3.Z3_OP_IMPLIES, z3.Z3_OP_TRUE, z3.Z3_OP_FALSE,
+                        z3.Z3_OP_ITE, z3.Z3_OP_XOR, z3.Z3_OP_IFF if hasattr(z3, "Z3_OP_IFF") else z3.Z3_OP_EQ}
+    return _ARITH_KINDS
+
+
+class ArithAbstraction(object):
+    """Boolean + linear-integer abstraction of the path condition: every maximal sub-term that is not
+    Boolean/integer arithmetic (sequence lengths, string predicates, uninterpreted applications ...)
+    becomes a fresh constant (one per distinct term).  The abstraction is WEAKER than the pc, so
+    'unsat' here is a sound infeasibility verdict and it is decided in milliseconds."""
+
+    def __init__(self, timeout_ms):
+        self.solver = z3.Solver()
+        self.solver.set("timeout", timeout_ms)
+        self.cache = {}
+        self.keep = []
+
+    def abs(self, t):
+        k = t.get_id()
+        if k in self.cache:
+            return self.cache[k]
+        r = self._abs(t)
+        self.cache[k] = r
+        self.keep.append(t)
+        return r
+
+    def _abs(self, t):
+        srt = t.sort()
+        is_int = z3.is_int(t)
+        is_bool = z3.is_bool(t)
+        if not (is_int or is_bool):
+            return None
+        if z3.is_app(t):
+            kind = t.decl().kind()
+            kids = [t.arg(i) for i in range(t.num_args())]
+            if kind in _arith_kinds() or (kind == z3.Z3_OP_EQ or kind == z3.Z3_OP_DISTINCT):
+                if kind in (z3.Z3_OP_EQ, z3.Z3_OP_DISTINCT) and not all(z3.is_int(x) or z3.is_bool(x) for x in kids):
+                    return z3.Bool("abs!b!%d" % t.get_id())
+                if kind == z3.Z3_OP_ITE and not (z3.is_int(kids[1]) or z3.is_bool(kids[1])):
+                    return (z3.Int if is_int else z3.Bool)("abs!%d" % t.get_id())
+                sub = [self.abs(x) for x in kids]
+                if any(x is None for x in sub):
+                    return (z3.Int if is_int else z3.Bool)("abs!%d" % t.get_id())
+                if kind == z3.Z3_OP_ANUM or not kids:
+                    return t if (z3.is_int_value(t) or z3.is_true(t) or z3.is_false(t)) else \
+                        (z3.Int if is_int else z3.Bool)("abs!%d" % t.get_id())
+                try:
+                    return t.decl()(*sub)
+                except Exception:  # noqa
+                    return (z3.Int if is_int else z3.Bool)("abs!%d" % t.get_id())
+            if kind == z3.Z3_OP_UNINTERPRETED and t.num_args() == 0:
+                return t
+        return (z3.Int if is_int else z3.Bool)("abs!%d" % t.get_id())
+
+    def add(self, cond):
+        a = self.abs(cond)
+        if a is not None:
+            self.solver.add(a)
+
+    def check(self, cond):
+        a = self.abs(cond)
+        if a is None:
+            return z3.unknown
+        return self.solver.check(a)
+
+
 class Ctx(InterpMixin, ModelsMixin):
     def __init__(self, engine, script):
         self.eng = engine
@@ -186,6 +269,7 @@ class Ctx(InterpMixin, ModelsMixin):
         self.forks = []
         self.solver = z3.Solver()
         self.solver.set("timeout", engine.branch_timeout_ms)
+        self.arith = ArithAbstraction(1000)
         self.pc = []
         self.obligs = []
         self.status = None
@@ -252,8 +336,20 @@ class Ctx(InterpMixin, ModelsMixin):
         return r
 
     def _check2(self, extra):
-        """feasibility with cvc5 as a second opinion when z3 answers unknown"""
-        r = self._check(extra)
+        """feasibility: (1) Boolean+LIA abstraction of the pc (sound for 'unsat', milliseconds);
+        (2) the full z3 context under a short budget; (3) cvc5 as a second opinion on unknown"""
+        t0 = time.time()
+        ra = self.arith.check(extra)
+        self.eng.stats["solver_time"] += time.time() - t0
+        if ra == z3.unsat:
+            return z3.unsat
+        self.solver.set("timeout", self.eng.branch_full_timeout_ms)
+        try:
+            r = self._check(extra)
+        finally:
+            self.solver.set("timeout", self.eng.branch_timeout_ms)
+        if r == z3.unknown and not _mentions_strings(extra, self.pc):
+            return r
         if r == z3.unknown and self.eng.cvc5_for_branches:
             from .solve import run_cvc5, smt2_for
             res, _ = run_cvc5(smt2_for(self.pc, extra), self.eng.cvc5_branch_timeout_s)
@@ -266,6 +362,7 @@ class Ctx(InterpMixin, ModelsMixin):
     def assume_raw(self, cond):
         self.pc.append(cond)
         self.solver.add(cond)
+        self.arith.add(cond)
 
     def assume(self, cond, check=True):
         """cond: z3 Bool / SBool / bool"""
